@@ -69,6 +69,21 @@ class ModuleInfo:
                     self.imported_names.add((a.asname or a.name).split(".")[0])
 
 
+def _strptime(it, a, k):
+    """datetime.strptime: executed when both arguments are literal strings (real library call, the result is a
+    concrete datetime model), otherwise an opaque token that records the text and the format"""
+    from .values import Tok, PyRaise
+    if len(a) == 2 and isinstance(a[0], str) and isinstance(a[1], str):
+        import datetime as _dt
+        from . import models
+        try:
+            d = _dt.datetime.strptime(a[0], a[1])
+        except ValueError as e:
+            raise PyRaise("ValueError", str(e))
+        return models.DT(d.year, d.month, d.day, d.hour, d.minute, d.second, d.microsecond)
+    return Tok("strptime(%s, %s)" % (getattr(a[0], "name", a[0]), getattr(a[1], "name", a[1]) if len(a) > 1 else "?"))
+
+
 def dump_constants(repo=REPO):
     env = dict(os.environ)
     env["PYTHONPATH"] = repo
@@ -811,7 +826,7 @@ def _now(it, a, k):
 
 DATETIME_CLASS = Builtin("datetime", models.make_datetime)
 DATETIME_CLASS.attrs = {"now": Builtin("datetime.now", _now),
-                        "strptime": Builtin("datetime.strptime", lambda it, a, k: Tok("strptime(%s)" % getattr(a[0], "name", a[0])))}
+                        "strptime": Builtin("datetime.strptime", _strptime)}
 
 
 def _copy(it, a, k):
